@@ -15,6 +15,7 @@ points.
 import Geodesy.Props.C13
 import Geodesy.Lemmas.Mercator
 import Geodesy.Lemmas.Conic
+import Geodesy.Lemmas.TmercLemmas
 import Mathlib.Analysis.Real.Pi.Bounds
 
 namespace Geodesy
@@ -227,6 +228,30 @@ example : |(0 : ℝ)| + Lcc.eps10 < Real.pi / 2 := by
     simp [Lcc.eps10, OfScientific.ofScientific, Scalar.ofSci, Lit.toReal]; norm_num
   have := Real.pi_gt_three
   rw [abs_zero, zero_add]; linarith
+
+/-! ### tmerc / utm -/
+
+/-- **the central meridian maps to the line `x = x_0`** (tmerc, utm), for every ellipsoid, every
+latitude and every parameter set: on the central meridian the imaginary part of the complex
+Clenshaw sum vanishes, and no point of it is refused -/
+theorem tmerc_central_meridian (q : Tmerc.Pre ℝ) (lat : ℝ) :
+    ∃ northing, Tmerc.fwd q q.lon0 lat = some (q.x0, northing) := by
+  have z : (@OfNat.ofNat ℝ 0 Scalar.instOfNat) = 0 := by
+    show (Scalar.ofNatLit 0 : ℝ) = 0
+    simp
+  have hlim : ¬ ((0 : ℝ) > Tmerc.limit ∨ (0:ℝ) < -Tmerc.limit) := by
+    have : (0 : ℝ) < Tmerc.limit := by
+      simp [Tmerc.limit, OfScientific.ofScientific, Scalar.ofSci, Lit.toReal]
+    intro h; rcases h with h | h <;> linarith
+  unfold Tmerc.fwd
+  simp only [sub_self, scalar_sin, scalar_cos, Real.sin_zero, Real.cos_zero, zero_mul, mul_zero, mul_one,
+    scalar_asinh, Real.arsinh_zero, TmercLemmas.complexSinTrig_imag_zero, add_zero, scalar_abs, abs_zero]
+  have hgt : Scalar.gt (0 : ℝ) (Tmerc.limit : ℝ) = false := by
+    have : (0 : ℝ) < Tmerc.limit := by
+      simp [Tmerc.limit, OfScientific.ofScientific, Scalar.ofSci, Lit.toReal]
+    simp [Scalar.gt, not_lt.mpr this.le]
+  simp only [hgt, Bool.false_eq_true, if_false, zero_add]
+  exact ⟨_, rfl⟩
 
 end C05
 end Geodesy
